@@ -337,3 +337,32 @@ func VH_C18_instruction_symlen() {
 	vrt.Assert(back.UnmarshalBinary(out) == nil && len(back) == 1 && len(back[0].UEPolicySectionContents) == 1, "the serialised instruction parses back")
 	vrt.Assert(back[0].Upsc == ins.Upsc && len(back[0].UEPolicySectionContents[0].UEPolicyPartContents) == len(content), "instruction fields round-trip at every size")
 }
+
+// the largest number of instructions one sub-list can carry in a command (16382 empty instructions: sub-list
+// length 65531) and one less, wire image written by hand with symbolic UPSCs: the list decodes with every
+// instruction, through the list parser and through the whole MANAGE UE POLICY COMMAND
+func VH_C18_instructions_large() {
+	vrt.Unwind(20000)
+	n := []int{16381, 16382}[vrt.Choose("nClass", 0, 1)]
+	up := vrt.BytesSym("upsc", 40000)
+	vrt.Assume(len(up) >= 2*n)
+	up = up[:2*n] // concrete length, contents still an uninterpreted function of the position
+	L := 3 + 4*n
+	wire := make([]byte, 0, 5+4*n)
+	wire = append(wire, byte(L>>8), byte(L), 0x02, 0xf8, 0x39)
+	for i := 0; i < n; i++ {
+		wire = append(wire, 0, 2, up[2*i], up[2*i+1])
+	}
+	var l UEPolicySectionManagementListContent
+	vrt.Assert(l.UnmarshalBinary(wire) == nil, "a sub-list filled with the maximum number of instructions is accepted")
+	vrt.Assert(len(l) == 1 && int(l[0].Len) == L && len(l[0].UEPolicySectionManagementSubListContents) == n, "every instruction of a maximal sub-list is parsed")
+	for _, k := range []int{0, n - 1} {
+		ins := l[0].UEPolicySectionManagementSubListContents[k]
+		vrt.Assert(ins.Len == 2 && ins.Upsc == uint16(up[2*k])<<8|uint16(up[2*k+1]) && len(ins.UEPolicySectionContents) == 0, "instructions of a maximal sub-list keep their UPSC and order")
+	}
+	msg := make([]byte, 0, 5+len(wire))
+	msg = append(msg, vrt.U8("pti"), MsgTypeManageUEPolicyCommand, 0x01, byte(len(wire)>>8), byte(len(wire)))
+	msg = append(msg, wire...)
+	u := NewUePolDeliverySer()
+	vrt.Assert(u.UePolDeliverySerDecode(msg) == nil, "the command carrying a maximal sub-list decodes")
+}
